@@ -313,9 +313,12 @@ impl ParallelCacheState {
             // If it is marked as selfdestructed inside revm
             // we need to changed state to destroyed.
             if is_destructed {
-                self.storage.remove(&address);
+                // Publish the storage-known status before clearing the cached slots: a concurrent
+                // cache-filling read re-checks the status before it inserts a fetched value.
+                let transition = self.get_account_mut(address).selfdestruct();
                 vpoint!(CACHE_CLEAR);
-                return self.get_account_mut(address).selfdestruct();
+                self.storage.remove(&address);
+                return transition;
             }
 
             // Note: it can happen that created contract get selfdestructed in same block
@@ -328,10 +331,10 @@ impl ParallelCacheState {
             // is not possible because CREATE2 is introduced later.
             if is_created {
                 let info = account.info;
-                self.storage.remove(&address);
-                vpoint!(CACHE_CLEAR);
                 let (transition, changed_slots) =
                     self.get_account_mut(address).newly_created(info.clone(), changed_storage);
+                vpoint!(CACHE_CLEAR);
+                self.storage.remove(&address);
                 self.contracts.entry(info.code_hash).or_insert_with(|| info.code.clone().unwrap());
                 (Some(transition), Some(changed_slots))
             }
@@ -343,10 +346,11 @@ impl ParallelCacheState {
             // pre-existing empty accounts are unmarked as touched. Therefore, an account that
             // reaches the commit layer as touched, empty, and not created must be cleared.
             else if is_empty {
-                self.storage.remove(&address);
-                vpoint!(CACHE_CLEAR);
                 drop(changed_storage);
-                (self.get_account_mut(address).touch_empty_eip161(), None)
+                let transition = self.get_account_mut(address).touch_empty_eip161();
+                vpoint!(CACHE_CLEAR);
+                self.storage.remove(&address);
+                (transition, None)
             } else {
                 let (transition, changed_slots) =
                     self.get_account_mut(address).change(account.info, changed_storage);
@@ -571,23 +575,35 @@ impl<'a, DB: DatabaseRef> ParallelStateView<'a, DB> {
         }
         // As in revm State::storage_ref, the account is not guaranteed to be cached. In that case,
         // the backing database remains the source of truth.
-        let is_storage_known =
-            self.cache.accounts.get(&address).is_some_and(|account| {
+        let is_storage_known = |cache: &ParallelCacheState| {
+            cache.accounts.get(&address).is_some_and(|account| {
                 account.status.is_storage_known() || account.account.is_none()
-            });
+            })
+        };
 
-        let value = if is_storage_known {
-            U256::ZERO
+        let fetched = if is_storage_known(self.cache) {
+            None
         } else {
-            self.with_metrics(|| self.database.storage_ref(address, index))?
+            Some(self.with_metrics(|| self.database.storage_ref(address, index))?)
         };
         vpoint!(DB_FILL_STORAGE);
+        // Ordered commit may have destroyed or (re-)created the account while the slot was being
+        // fetched. It publishes the account status before it clears the cached slots, so deciding
+        // under the storage entry whether the fetched value is still current keeps a
+        // pre-destruction value out of the freshly cleared map.
+        let current = |fetched: Option<U256>| match fetched {
+            Some(value) if !is_storage_known(self.cache) => value,
+            _ => U256::ZERO,
+        };
         let value = if let Some(slots) = self.cache.storage.get(&address) {
-            *slots.entry(index).or_insert(value).value()
+            *slots.entry(index).or_insert_with(|| current(fetched)).value()
         } else {
             match self.cache.storage.entry(address) {
-                Entry::Occupied(entry) => *entry.get().entry(index).or_insert(value).value(),
+                Entry::Occupied(entry) => {
+                    *entry.get().entry(index).or_insert_with(|| current(fetched)).value()
+                }
                 Entry::Vacant(entry) => {
+                    let value = current(fetched);
                     *entry.insert(Default::default()).entry(index).or_insert(value).value()
                 }
             }
